@@ -102,7 +102,7 @@ def run(prog, tier, res):
     got = []
     for bb, t in wan.some_sites():
         for path in forward_paths(wan, bb) or []:
-            ats = accept.simplify(path_atoms(wsy, path))
+            ats = accept.simplify(path_atoms(wsy, path), wsy.sym_box)
             if ats is None:
                 continue
             wsy.set_path(path[1])
@@ -132,7 +132,7 @@ def run(prog, tier, res):
     for bb, t in wan.ret_assignments():
         if t[0] == "aggr" and t[1].endswith("Option::None"):
             for path in forward_paths(wan, bb) or []:
-                ats = [fsub(atom_str(a)) for a in (accept.simplify(path_atoms(wsy, path)) or [])]
+                ats = [fsub(atom_str(a)) for a in (accept.simplify(path_atoms(wsy, path), wsy.sym_box) or [])]
                 if ats == ["POS is None"]:
                     none_ok = True
     if none_ok:
